@@ -31,6 +31,7 @@ var (
 	ErrRangeNotSatisfiable  = errors.New("range not satisfiable")
 	ErrIfRangeMismatch      = errors.New("If-Range header mismatch")
 	ErrBadGateway           = errors.New("bad gateway. Error when sending request to upstream")
+	ErrResponseIncomplete   = errors.New("the response could not be written completely")
 )
 
 type cachedRequestInfo struct {
@@ -116,7 +117,7 @@ func finalizeAndRespond(r responder.Responder, resp io.Reader, status int, req *
 	written, err := r.Write(status, body)
 	if err != nil {
 		slog.Error("Error writing response", "url", req.URL, "error", err)
-		return err
+		return fmt.Errorf("%w: %v", ErrResponseIncomplete, err)
 	}
 
 	metrics.Global.Requests.BytesServed.Add(written)
@@ -355,6 +356,12 @@ func (p *Proxy) handleCONNECT(r responder.Responder, proxyReq *http.Request) err
 		// status of the response it builds, none of which may leak into the next exchange.
 		if err := p.handleHTTP(responder.NewRawHTTPResponder(tlsConn), req); err != nil {
 			slog.Error("Error processing HTTP request in CONNECT tunnel", "host", proxyReq.Host, "error", err)
+			if errors.Is(err, ErrResponseIncomplete) {
+				// The client has a head that promises more than it got (the origin broke off, or the
+				// client stopped reading): only the end of the connection tells it so. Reading on would
+				// leave it waiting, or have it take the next response for the rest of this body.
+				break
+			}
 		}
 	}
 
